@@ -11,7 +11,13 @@ SCR = "/tmp/selftest_repo"
 def fresh():
     sh(f"rm -rf {SCR} && mkdir -p {SCR} && git -C /repo archive HEAD | tar -x -C {SCR} && cd {SCR} && git init -q && git add -A && git -c user.email=a@b -c user.name=x commit -qm base")
 PASS_CHECKS = {"rename_locals_base_score": ["C01", "C06"], "extract_helper_exploitability": ["C01", "C12"], "severity_if_chain": ["C06"], "reorder_map_literal": ["C20", "C07"],
-               "rename_lasterr_values": ["C07", "C11"], "env_score_temps_v2": ["C05", "C13"], "geterror_if_chain": ["C12", "C01"], "names_rename_param": ["C18", "C17"], "report_reorder_literal": ["C17"]}
+               "rename_lasterr_values": ["C07", "C11"], "env_score_temps_v2": ["C05", "C13"], "geterror_if_chain": ["C12", "C01"], "names_rename_param": ["C18", "C17"], "report_reorder_literal": ["C17"],
+               "getav_switch": ["C20", "C07"], "avvalue_switch": ["C20", "C01"], "encode_concat": ["C10"], "decodeone_hoist": ["C07", "C11"], "base_score_factor": ["C01"],
+               "decode_restructure": ["C07", "C12"], "string_named": ["C10"], "roundup_consts": ["C01", "C06"], "v3_temporal_score_temps": ["C02"], "v3_temporal_encode_sprintf": ["C10"],
+               "v2_temporal_isempty_demorgan": ["C08", "C04"], "v2_temporal_score_inline": ["C04"], "v2_decode_compare_first": ["C08"], "names_getname_restructure": ["C18"],
+               "options_index_loop": ["C17"], "report_base_locals": ["C17"], "severity_reordered_cases": ["C06"],
+               "receiver_rename_score": ["C01"], "param_rename_decodeone": ["C07"], "decode_index_loop": ["C07", "C09"], "score_err_inline": ["C01", "C12"], "unused_helper_added": ["C15"],
+               "v2_env_decode_range_index": ["C08"], "env_score_single_return": ["C03", "C13"]}
 def run(kind, flt):
     results = []
     if kind in ("pass", "fail"):
